@@ -9,6 +9,7 @@ import DtailModel.Lemmas.GoRT
 import DtailModel.Lemmas.NoPanic
 import DtailModel.Lemmas.OptionOrder
 import DtailModel.Lemmas.GenQuery
+set_option autoImplicit false
 namespace Dtail.GenOptions
 open Dtail Dtail.Go Dtail.GenQuery
 
